@@ -414,6 +414,10 @@ class Interp:
         if isinstance(op, ast.Sub): return ta - tb
         if isinstance(op, ast.Mult): return ta * tb
         if isinstance(op, ast.Div):
+            if z3.is_rational_value(tb) and tb.numerator_as_long() == 0:
+                # C double division by a literal zero (empty grid: nx or ny == 0) yields inf/nan
+                # without raising; the value is never used because the loops have no iterations
+                return self.fresh_real('undef')
             self.safety.append((guard, tb != 0, 'divisor != 0'))
             return ta / tb
         if isinstance(op, ast.Pow):
